@@ -126,6 +126,9 @@ class AsyncioTransportStreamSocketAdapter(AsyncStreamTransport):
         del iterable_of_data
         if chunks:
             self.__transport.writelines(chunks)
+            # asyncio's writelines() does not re-evaluate the flow control state like write() does (CPython 3.12).
+            # Setting the limits again forces it, so writer_drain() really waits for the buffer to be flushed.
+            self.__transport.set_write_buffer_limits(0)
         await self.__protocol.writer_drain()
 
     async def send_eof(self) -> None:
